@@ -41,6 +41,7 @@ func init() {
 			"pt: encodings of honest points, random strings, small-order and non-canonical encodings vs a math/big decoder; " +
 			"sv/svx: every generated key (RFC 8032 seed keys and raw scalars) x messages {empty, short, long}: bundled Sign -> std Verify, std Sign -> bundled Verify; " +
 			"ali/sca/pta/apx: every public Scalar and Point operation and the raw routines with the receiver/output fresh, = first operand, = second operand, both operands one object, all one object, on {0,1,2,l-1,l-2,l+1,2^256-1,random reduced/unreduced} resp. identity, base, small-order and honest points, vs math/big (affine Edwards arithmetic for points); " +
+			"fe/ge/pt2 (fege.go): every routine of fe.go and method of ge.go on raw limb vectors through the hooks, compared limb for limb with the regenerated Lean translation: field operands at 1x/2x/3x the ref10 limb bounds (all +, all -, alternating, single extreme limb, random), alias patterns fresh / h=f / h=g / f=g / all, residues 0, +-1, p-1, p, p+k, -p in tight and loose shapes, byte strings at every limb boundary; group operands identity, base, all small-order points, honest multiples of B and mixed-order points in the shapes Z=1 / random Z / sign-flipped X, chains through the real routines, table selection, non-canonical and non-square encodings, scalars {0,1,8,l-1,l,l+1,2^252,2^253-1,2^255-1,random}; oracle math/big (value, limb bound, affine Edwards law, X*Y=Z*T, canonical bytes); classes *-wild / *-a31>127 = operands outside the ref10 contracts, model = implementation only; " +
 			"mut: every (thorough) / a sample (quick) of the single-bit mutations of signature, message, key, plus S+l, truncation, extension: both verifiers must reject; " +
 			"non-trivial = every case whose operands are not all zero; distinct = distinct case line",
 		Gen:  gen,
@@ -515,7 +516,7 @@ func exec(line string) (res h.Result) {
 			res.Oracle = "unaltered-rejected: bv=" + bv + " sv=" + sv
 		}
 	default:
-		if !execAlias(w, &res) {
+		if !execAlias(w, &res) && !execFeGe(w, &res) {
 			panic("bad case line")
 		}
 	}
@@ -811,4 +812,5 @@ func gen(tier string, rng *h.Rng, emit func(string)) {
 	genMut(rng, thorough, emit)
 	genShortS(rng, thorough, emit)
 	genAlias(rng, thorough, emit)
+	genFeGe(rng, thorough, emit)
 }
